@@ -21,6 +21,7 @@ RULE = ("exhaustive enumeration of (key, interval in -48..48), (key, a, b in -13
         "Non-trivial = every case except the identity interval on C major; distinct by case digest.")
 RULE = RULE + " Rounds e-g: wide and negative integers before ordinary pitches, table integrity after ordinary library use (key guess, transposition, MIDI key loading, get_info, equals / merge of differently keyed sequences)."
 RULE = RULE + " Round h: intervals beyond the float range."
+RULE = RULE + " Round i: keyword calls."
 ASSUMPTIONS = ["KeyNoteMapping's first element of each scale list is the tonic (checked: it must span a major scale)",
                "enharmonic spelling of the returned key is free (compared as tonic pitch class + pitch-class set)"]
 TIERS = {"quick": dict(shards=2, examples=300, enum_shards=6),
@@ -182,6 +183,14 @@ def check(case):
                 d = CircleOfFifths.get_distance(a, b)
                 pa, pb = CircleOfFifths.get_position(a), CircleOfFifths.get_position(b)
                 land = CircleOfFifths.from_distance(a, d)
+                if not case.get("np"):
+                    # the documented parameter names, passed by keyword
+                    dk = CircleOfFifths.get_distance(from_note_val=a, to_note_val=b)
+                    lk = CircleOfFifths.from_distance(base_note_val=a, cof_distance=d)
+                    pk = CircleOfFifths.get_position(note_val=a)
+                    if (dk, lk, pk) != (d, land, pa):
+                        out.fail("keyword-call-differs", f"a={a} b={b}: positional ({d}, {land}, {pa}) vs keyword ({dk}, {lk}, {pk})")
+                        return out
             except Exception as e:
                 out.fail("cof-raises", f"a={a} b={b}: {type(e).__name__}: {e}")
                 return out
